@@ -174,3 +174,41 @@ def c09_edge(ctx, I, t):
           f_, fn_site(p, 'EightChar::get_solar_times'))
     table(ctx, 'RANGE-END', 'RANGE:EightChar::get_solar_times:last-year', dom_end, search, lambda x: (True, True),
           'the inverse search finds an instant of December 9999 when the searched range ends with year 9999', f_, fn_site(p, 'EightChar::get_solar_times'))
+
+
+def c17_edge(ctx, I, t):
+    """day nine star in the first and the last supported civil year: the solstices that bound its runs lie in years 0 resp. 10000"""
+    p = ctx.prog
+    scen = edge_scenarios()
+    ctx.rule('RANGE-END', 'the first and last days / lunar years of the supported range: the answer exists although a neighbouring term, month or day lies outside the range')
+
+    def nearest_jiazi(n):
+        idx = (n + 49) % 60
+        return n + (60 - idx) if idx > 29 else n - idx
+
+    def orc(x):
+        si, n = x
+        y = CAL.from_jdn(n)[0]
+        tm = scen[si][1]
+        s1, ni, s2 = nearest_jiazi(tm[(y, 0)][0]), nearest_jiazi(tm[(y, 12)][0]), nearest_jiazi(tm[(y + 1, 0)][0])
+        if s1 <= n < ni:
+            v = (n - s1) % 9
+        elif ni <= n < s2:
+            v = (8 - (n - ni)) % 9
+        else:
+            v = (n - s2) % 9
+        return (v, v)
+
+    def star(x):
+        si, n = x
+        cm = CalModel(I, scen[si][1], scen[si][2])
+        d = cm.solar_day_n(n)
+        return (t.idx(t.m(t.m(d, 'get_sixty_cycle_day'), 'get_nine_star')), t.idx(t.m(t.m(d, 'get_lunar_day'), 'get_nine_star')))
+    dom = []
+    for si, y in ((1, 1),):       # the property's quantifier is 0001..9998: the last year is outside it
+        lo = max(nearest_jiazi(scen[si][1][(y, 0)][0]), CAL.jdn(y, 1, 1))
+        covered = lambda n: any(r['first'] <= n < r['first'] + r['count'] for r in scen[si][2])
+        dom += [(si, n) for n in (lo + 3, CAL.jdn(y, 3, 1), CAL.jdn(y, 7, 20), CAL.jdn(y, 11, 30), CAL.jdn(y, 12, 31)) if covered(n)]
+    table(ctx, 'RANGE-END', 'RANGE:day-nine-star:first-year', dom, star, orc,
+          'the day star of days of year 1 (the winter solstice that starts its ascending run lies in December of year 0)',
+          fmt(scen), fn_site(p, 'LunarDay::get_nine_star'))
